@@ -575,6 +575,22 @@ def _rollback_typestate(m, r, f, g, muts, restore_calls):
                 if isinstance(t, ast.Name):
                     resvars[t.id] = convention
 
+    # plain boolean flags (`armed = True` ... `armed = False` ... `if armed: restore`): locals that only ever hold a
+    # bool constant; their value is tracked along the path so that the infeasible side of a test on them is pruned
+    flagvars = {}
+    for n in walk_scope(f.node):
+        if isinstance(n, ast.Assign):
+            for t in n.targets:
+                for x in ast.walk(t):
+                    if isinstance(x, ast.Name):
+                        ok_ = len(n.targets) == 1 and isinstance(t, ast.Name) and isinstance(n.value, ast.Constant) and isinstance(n.value.value, bool)
+                        flagvars[x.id] = flagvars.get(x.id, True) and ok_
+        elif isinstance(n, (ast.AugAssign, ast.AnnAssign, ast.For, ast.With, ast.NamedExpr, ast.comprehension, ast.ExceptHandler)):
+            for x in ast.walk(n.target if hasattr(n, "target") else n):
+                if isinstance(x, ast.Name) and isinstance(getattr(x, "ctx", None), ast.Store):
+                    flagvars[x.id] = False
+    flagvars = {k for k, v in flagvars.items() if v and k not in resvars and k not in f.params}
+
     # per node classification
     node_mut, node_restore = {}, {}
     helper_restores = {}  # id(call) -> 'always' | 'sometimes'
@@ -651,17 +667,31 @@ def _rollback_typestate(m, r, f, g, muts, restore_calls):
             v = node.ast.value
             if isinstance(v, ast.Constant):
                 for t in node.ast.targets:
+                    if isinstance(t, ast.Name) and t.id in flagvars:
+                        fd[t.id] = "T" if v.value else "F"
                     if isinstance(t, ast.Name) and t.id in resvars:
                         if resvars[t.id] == "bool":
                             fd[t.id] = "accept" if v.value else "reject"
                         else:
                             fd[t.id] = "accept" if v.value == "" else "reject"
+        if node.kind == "return" and kind in NORMAL:
+            # the verdict is fixed when the return statement is evaluated; the phase is judged where the function is
+            # actually left (a `finally` / `with` exit after the return may still restore)
+            fd["__ret"] = f"{_verdict_of_return(node.ast, fd, resvars, convention)}@{node.id}"
         if node_mut[node.id]:
             phase = "dirty"  # also on the exceptional edges out of the mutating call
         if node_restore[node.id]:
             # post-state also on exceptional edges: set_shape_memo is verified trivial (C04.4)
             phase = "restored"
         if node.kind in ("test", "while") and kind in ("t", "f"):
+            t_ = node.ast
+            neg_ = False
+            while isinstance(t_, ast.UnaryOp) and isinstance(t_.op, ast.Not):
+                neg_ = not neg_
+                t_ = t_.operand
+            if isinstance(t_, ast.Name) and t_.id in flagvars and t_.id in fd:
+                if ((fd[t_.id] == "T") != neg_) != (kind == "t"):
+                    return ()  # the flag is known on this path: the other side is infeasible
             fact = _result_fact(node.ast, kind == "t", resvars)
             if fact is not None:
                 var, verdict = fact
@@ -683,24 +713,29 @@ def _rollback_typestate(m, r, f, g, muts, restore_calls):
                         "context: no set_shape_memo(<snapshots>) on this path",
                         path=fl.witness(ex, stt), construct=handler[1])
                 break
-    # normal exits: inspect each return node
-    for n in g.live_nodes():
-        if n.kind != "return":
+    # normal exits: the verdict recorded at the return statement against the phase at the exit
+    seen_ret = set()
+    for stt in fl.states_at(g.exit):
+        phase, facts = stt
+        rv = dict(facts).get("__ret")
+        if rv is None:
             continue
-        for stt in fl.states_at(n):
-            phase, facts = stt
-            # the return node itself is not a mutator/restore in any accepted shape
-            verdict = _verdict_of_return(n.ast, dict(facts), resvars, convention)
+        verdict, nid = rv.rsplit("@", 1)
+        n = g.nodes[int(nid)]
+        if (n.id, phase, verdict) in seen_ret:
+            continue
+        seen_ret.add((n.id, phase, verdict))
+        if True:
             if phase == "dirty" and verdict != "accept":
                 ok = False
                 _found("C04.1", f, n.ast,
                         f"a return that does not accept (verdict on this path: {verdict}) is reached with the "
                         "bindings of the failed check still in place (no restore)",
-                        path=fl.witness(n, stt))
+                        path=fl.witness(g.exit, stt))
             if phase == "restored" and verdict == "accept":
                 ok = False
                 _found("C04.1", f, n.ast, "an accepting return is reached after the bindings were rolled back: "
-                        "a passing check would bind nothing", path=fl.witness(n, stt))
+                        "a passing check would bind nothing", path=fl.witness(g.exit, stt))
     # fall off the end (implicit `return None`: a rejecting verdict)
     for k, p in g.falloff.pred:
         if g.falloff.id not in g.reachable:
